@@ -1369,12 +1369,14 @@ class Xsd11Element(XsdElement):
                 elem = Element(elem.tag)
 
         if inherited:
-            dummy = Element('_dummy_element', attrib=inherited)
+            # The tests are evaluated on the element with its own attributes
+            # plus the inherited ones (its own attributes take precedence).
+            dummy = Element(elem.tag, attrib=inherited)
             dummy.attrib.update(elem.attrib)
 
             for alt in self.alternatives:
                 if alt.type is not None:
-                    if alt.token is None or alt.test(elem) or alt.test(dummy):
+                    if alt.token is None or alt.test(dummy):
                         return alt.type
         else:
             for alt in self.alternatives:
